@@ -241,10 +241,52 @@ def scan_writers(model, modules):
     return hits
 
 
+def _enclosing(n):
+    p = getattr(n, "_parent", None)
+    while p is not None:
+        if isinstance(p, (ast.FunctionDef, ast.AsyncFunctionDef)):
+            fi = getattr(p, "_funcinfo", None)
+            return fi.qualname if fi is not None else "<unknown>"
+        p = getattr(p, "_parent", None)
+    return "<module>"
+
+
+def exclusive_helpers(m, mods, allowed):
+    """`allowed` plus every private function that is referenced ONLY from inside it (transitively): code the
+    single writer merely moved into a helper of its own is still the single writer.  References are matched by
+    bare name over the whole package, so any use from elsewhere (or a same-named function) keeps it out."""
+    refs = {}
+    for mod in mods:
+        for n in ast.walk(mod.tree):
+            if isinstance(n, ast.Name) and isinstance(n.ctx, ast.Load):
+                nm = n.id
+            elif isinstance(n, ast.Attribute) and isinstance(n.ctx, ast.Load):
+                nm = n.attr
+            elif isinstance(n, ast.Constant) and isinstance(n.value, str) and n.value.isidentifier():
+                nm = n.value  # getattr(x, "name") / __all__
+            else:
+                continue
+            refs.setdefault(nm, set()).add(_enclosing(n))
+    ext = set(allowed)
+    changed = True
+    while changed:
+        changed = False
+        for f in m.functions:
+            if f.qualname in ext or f.module.name == ABC_MOD:
+                continue
+            if not f.name.startswith("_") or (f.name.startswith("__") and f.name.endswith("__")):
+                continue
+            r = refs.get(f.name)
+            if r and all(q in ext for q in r):
+                ext.add(f.qualname)
+                changed = True
+    return ext
+
+
 def check_writers(A, rep):
     m = A.model
     mods = [mod for name, mod in m.modules.items() if name != ABC_MOD]
-    allowed = {f.qualname for f in file_backends(A)}
+    allowed = exclusive_helpers(m, mods, {f.qualname for f in file_backends(A)})
     hits = scan_writers(m, mods)
     rep.context("who-may-write", True)
     # built-in positive example
